@@ -234,7 +234,7 @@ fn judge(sc: &Scenario, e: &Exec, tally: &mut Tally) {
     let hh = tally.h;
     let doc = || json!({"check": "C15", "scenario": sc.json(), "iterations": hh, "schedule": choices, "fault": e.rep.fault_label, "thread_states_at_end": e.rep.waiting});
     if e.rep.events.iter().any(|x| x.starts_with("DIVERGENCE")) {
-        machinery_failure(&format!("replay divergence in the thread explorer: {:?}", e.rep.events.last()));
+        machinery_failure(&format!("replay divergence in the thread explorer: {:?} scenario {} schedule {:?}", e.rep.events.iter().find(|x| x.starts_with("DIVERGENCE")), sc.json(), choices));
     }
     let fired = sc.startup_failure || e.rep.fault_fired_at_ns.is_some();
     if !fired {
